@@ -56,7 +56,7 @@ func (u *Unit) Run() {
 	ct := u.contract
 	env := u.envFor(nil, st, u.entry, nil)
 	for _, r := range ct.Requires {
-		u.assume(st, u.evalBool(env, r.Expr))
+		u.assume(st, u.evalBoolF(env, st, r.Expr))
 	}
 	u.entry = st.clone()
 	u.addCover(st, "cover/pre", fn.Pos(), True)
@@ -77,7 +77,7 @@ func (u *Unit) Run() {
 		if e.Label != "" {
 			name = "post#" + e.Label
 		}
-		u.addOblNamed(exit, "post", name, "postcondition: "+e.Src, fn.Pos(), u.evalBool(penv, e.Expr))
+		u.addOblNamed(exit, "post", name, "postcondition: "+e.Src, fn.Pos(), u.evalBoolF(penv, exit, e.Expr))
 	}
 }
 
